@@ -150,10 +150,17 @@ def checkGenesis (c : Config) : Verdict :=
 
 /-! ### what the ledger holds after genesis (specification side) -/
 
+/-- what `accountStore.SetBalance` keeps of an amount: `common.BigIntToBytes` writes `big.Int.Bytes()`, the ABSOLUTE
+    value, and `GetBalance` reads it back with `SetBytes` — the sign is lost -/
+def stored (a : Int) : Int := a.natAbs
+
 /-- `wrap`: for every entry of the address, in list order, `SetBalance(zts, amount)` for each map entry — a later
     entry overwrites an earlier one; an address without entries holds nothing -/
 def ledgerBalance (c : Config) (addr z : Bytes) : Int :=
-  (c.blocks.filter (fun b => b.addr = addr)).foldl (fun acc b => (lookup b.bal z).getD acc) 0
+  (c.blocks.filter (fun b => b.addr = addr)).foldl (fun acc b => ((lookup b.bal z).map stored).getD acc) 0
+
+/-- no negative amount in any balance list (nothing in the code checks this) -/
+def Config.NonNeg (c : Config) : Prop := ∀ b ∈ c.blocks, ∀ e ∈ b.bal, 0 ≤ e.2
 
 def dedup : List Bytes → List Bytes
   | [] => []
